@@ -49,8 +49,9 @@ fn next_instruction_index(b: &Block) -> u64 {
 /// ControlFlowGraph::next_index is private: the index a new block would get on a clone
 fn next_index(g: &ControlFlowGraph) -> u64 {
     let mut c = g.clone();
-    let r = c.new_block().map(|b| b.index() as u64);
-    r.expect("new_block on a clone")
+    // a failing new_block on the clone (impossible on a consistent graph) is reported as 0, which the
+    // invariant (block index < next_index) then rejects
+    observe_plain(|| c.new_block().map(|b| b.index() as u64).unwrap_or(0)).unwrap_or(0)
 }
 fn obs_lz(o: &Obs<Vec<usize>>) -> String {
     o.coq(|v| coq_list(v.iter().map(|x| format!("{}", x)).collect::<Vec<_>>()))
@@ -116,10 +117,30 @@ fn gen_case(seed: u64, idx: u64) -> Case {
     let (mut merges_eff, mut appends_ok, mut fails) = (0, 0, 0);
     // bias: a building phase profile per case
     let selfloops = r.chance(1, 2);
+    // 2/3 of the cases start with a well-formed construction prelude per graph (blocks, pushes, a chain
+    // or a diamond of edges, entry, exit) so that merges are effective and appends succeed
+    let mut prelude: Vec<(usize, u64, usize, usize)> = vec![]; // (graph, pick, a, b)
+    if r.chance(2, 3) {
+        for t in 0..ng {
+            let nb = r.range(1, 4) as usize;
+            for _ in 0..nb { prelude.push((t, 0, 0, 0)); }
+            for b in 0..nb { for _ in 0..r.below(3) { prelude.push((t, 50, b, 0)); } }
+            for b in 0..nb.saturating_sub(1) {
+                if r.chance(3, 4) { prelude.push((t, 20, b, b + 1)); }
+            }
+            if nb > 2 && r.chance(1, 2) { prelude.push((t, 27, 0, nb - 1)); }
+            prelude.push((t, 35, 0, 0));
+            prelude.push((t, 45, nb - 1, 0));
+        }
+        prelude.reverse();
+    }
+    let nops = nops + prelude.len() as u64;
     for _ in 0..nops {
-        let t = r.below(ng as u64) as usize;
+        let scripted = prelude.pop();
+        let t = match scripted { Some(p) => p.0, None => r.below(ng as u64) as usize };
         let before_blocks = gs[t].blocks().len();
-        let pick = r.below(100);
+        let pick = match scripted { Some(p) => p.1, None => r.below(100) };
+        let fixed_idx = scripted.map(|p| (p.2, p.3));
         let (opc, opd, res): (String, String, Obs<Vec<usize>>);
         if pick < 16 {
             let o = observe(|| gs[t].new_block().map(|b| vec![b.index()]));
@@ -127,11 +148,12 @@ fn gen_case(seed: u64, idx: u64) -> Case {
             opd = "new_block".into();
             res = o;
         } else if pick < 34 {
-            let (h, mut tl) = (some_index(r, &gs[t]), some_index(r, &gs[t]));
+            let (mut h, mut tl) = (some_index(r, &gs[t]), some_index(r, &gs[t]));
             if selfloops && r.chance(1, 5) {
                 tl = h;
             }
-            if r.chance(3, 5) {
+            if let Some((a, b)) = fixed_idx { h = a; tl = b; }
+            if (fixed_idx.is_some() && pick == 20) || (fixed_idx.is_none() && r.chance(3, 5)) {
                 res = observe(|| gs[t].unconditional_edge(h, tl).map(|_| vec![]));
                 opc = format!("CUncond {} {}", h, tl);
                 opd = format!("unconditional_edge({},{})", h, tl);
@@ -142,17 +164,17 @@ fn gen_case(seed: u64, idx: u64) -> Case {
                 opd = format!("conditional_edge({},{},x=={})", h, tl, k);
             }
         } else if pick < 41 {
-            let i = some_index(r, &gs[t]);
+            let i = match fixed_idx { Some((a, _)) => a, None => some_index(r, &gs[t]) };
             res = observe(|| gs[t].set_entry(i).map(|_| vec![]));
             opc = format!("CSetEntry {}", i);
             opd = format!("set_entry({})", i);
         } else if pick < 48 {
-            let i = some_index(r, &gs[t]);
+            let i = match fixed_idx { Some((a, _)) => a, None => some_index(r, &gs[t]) };
             res = observe(|| gs[t].set_exit(i).map(|_| vec![]));
             opc = format!("CSetExit {}", i);
             opd = format!("set_exit({})", i);
         } else if pick < 66 {
-            let b = some_index(r, &gs[t]);
+            let b = match fixed_idx { Some((a, _)) => a, None => some_index(r, &gs[t]) };
             counter += 1;
             let k = counter;
             let nop = r.chance(1, 6);
@@ -240,6 +262,7 @@ fn gen_case(seed: u64, idx: u64) -> Case {
         tags.push("merge:effective".into());
     }
     tags.push(format!("ops:{}", (nops / 10) * 10));
+    if appends_ok > 0 { tags.push("append:ok".into()); }
     let coq = format!("KHist {} {}", ng, coq_list(steps));
     let key = format!("{:x}", fxhash(&coq));
     Case {
